@@ -293,6 +293,19 @@ class Verifier(Engine):
         name = cls.__name__
         if classes.get(name) is not cls:
             raise OutOfSubset('construction of %r' % cls)
+        if issubclass(cls, list) and '__init__' not in vars(cls) and '__new__' not in vars(cls):
+            # a list subclass without its own constructor: list(iterable) -- a fresh list with the same elements
+            if kwargs or len(args) > 1:
+                raise OutOfSubset('list subclass constructor arguments')
+            if not args:
+                return self.new_list(st, [])
+            src = args[0]
+            if not isinstance(src, VList):
+                raise OutOfSubset('list subclass built from %s' % kind_of(src))
+            l = st.alloc(name.lower())
+            st.wr('$len', l, st.llen(src.t))
+            st.lset_all(l, st.larr(src.t, src.ek), src.ek)
+            return VList(l, src.ek)
         r = st.alloc(name.lower())
         ref = VRef(r, name)
         for u in ('$isinst_' + k.__name__ for k in classes.table().values()):
@@ -851,8 +864,8 @@ class Verifier(Engine):
         else:
             name = st.env.get('$handling', 'Exception')
             val = None
-        st.pend = []
-        return [Outcome('exc', st, val=val, exc=name, site='raise@s%s' % self.cur_site)]
+        outs = self.split_pend(st)        # what evaluating the raised expression itself may raise
+        return outs + [Outcome('exc', st, val=val, exc=name, site='raise@s%s' % self.cur_site)]
 
     def st_Break(self, st, s):
         return [Outcome('brk', st)]
